@@ -30,7 +30,8 @@ CONSTANTS
   RootLoc,      \* location of the root node, 0 for the empty trie
   NumCodes,     \* codes are 1..NumCodes
   CodeSize,     \* [Codes -> Nat]
-  Batches       \* the values of max the client passes to Missing (0 = no limit)
+  Batches,      \* the values of max the client passes to Missing (0 = no limit)
+  MaxFetches    \* maxFetchesPerDepth: requests handed out and not yet completed, per path depth
 
 Locs  == 1..NumLocs
 Codes == 1..NumCodes
@@ -46,9 +47,10 @@ VARIABLES
   mb,        \* membatch.nodes: Seq([del, loc])
   mc,        \* membatch.codes
   ms,        \* membatch.size
+  fetches,   \* [depth -> Int] requests handed out by Missing and not yet completed
   res        \* result of the last call (observable outcome)
 
-vars == <<dbn, dbc, reqs, creqs, queue, asked, mb, mc, ms, res>>
+vars == <<dbn, dbc, reqs, creqs, queue, asked, mb, mc, ms, fetches, res>>
 
 RangeOf(s) == {s[i] : i \in 1..Len(s)}
 RestrictTo(f, S) == [x \in S |-> f[x]]
@@ -62,6 +64,11 @@ Exists(l) == Present(l)
 Inconsistent(l) == Scheme = "path" /\ l \in DOMAIN dbn /\ dbn[l] # Target[l]
 
 PathLen(l)  == Len(LocPath[l])
+(* depth of a request = length of its path; a code request carries the 64-nibble path of the  *)
+(* account leaf that names it                                                                 *)
+CodeDepth == 64
+Depths == {PathLen(l) : l \in Locs} \cup {CodeDepth}
+Depth(it) == IF it[1] = "n" THEN PathLen(it[2]) ELSE CodeDepth
 IsStorage(l) == PathLen(l) >= 64
 (* syncMemBatch.addNode / delNode size accounting *)
 WriteCharge(l) == IF Scheme = "path"
@@ -69,7 +76,7 @@ WriteCharge(l) == IF Scheme = "path"
                   ELSE HashLen + BlobSize[l]
 DelCharge(l) == IF IsStorage(l) THEN HashLen + (PathLen(l) - 64) ELSE PathLen(l)
 
-S0 == [reqs |-> reqs, creqs |-> creqs, queue |-> queue, mb |-> mb, mc |-> mc, ms |-> ms]
+S0 == [reqs |-> reqs, creqs |-> creqs, queue |-> queue, mb |-> mb, mc |-> mc, ms |-> ms, fe |-> fetches]
 
 DelNode(s, l) == [s EXCEPT !.mb = Append(@, [del |-> TRUE, loc |-> l]), !.ms = @ + DelCharge(l)]
 
@@ -96,10 +103,14 @@ AddCode(s, c, parent) ==
 RECURSIVE CommitNode(_, _)
 CommitNode(s, l) ==
   LET p  == s.reqs[l].parent
-      \* (a request that is still queued when it completes is skipped by Missing later without
-      \*  being counted; dropping it from the queue here is observationally the same)
+      \* s.fetches[len(req.path)]--: the completed request releases its slot.
+      \* (A request that is still queued when it completes is skipped by Missing later without
+      \*  being returned: the code decrements here and increments again at that pop; dropping it
+      \*  from the queue here and leaving the counter alone is the same but for that interval.)
+      queued == <<"n", l>> \in s.queue
       s1 == [s EXCEPT !.mb = Append(@, [del |-> FALSE, loc |-> l]), !.ms = @ + WriteCharge(l),
-                      !.reqs = RestrictTo(@, DOMAIN @ \ {l}), !.queue = @ \ {<<"n", l>>}]
+                      !.reqs = RestrictTo(@, DOMAIN @ \ {l}), !.queue = @ \ {<<"n", l>>},
+                      !.fe[PathLen(l)] = IF queued THEN @ ELSE @ - 1]
   IN IF p = 0 THEN s1
      ELSE LET s2 == [s1 EXCEPT !.reqs[p].deps = @ - 1]
           IN IF s2.reqs[p].deps = 0 THEN CommitNode(s2, p) ELSE s2
@@ -128,9 +139,10 @@ Expand(s, l) ==
      ELSE ScheduleAll([s3 EXCEPT !.reqs[l].deps = @ + Len(missing)], missing, l)
 
 Install(s) == /\ reqs' = s.reqs /\ creqs' = s.creqs /\ queue' = s.queue
-              /\ mb' = s.mb /\ mc' = s.mc /\ ms' = s.ms
+              /\ mb' = s.mb /\ mc' = s.mc /\ ms' = s.ms /\ fetches' = s.fe
 
-EmptyS == [reqs |-> [x \in {} |-> 0], creqs |-> [x \in {} |-> <<>>], queue |-> {}, mb |-> <<>>, mc |-> {}, ms |-> 0]
+EmptyS == [reqs |-> [x \in {} |-> 0], creqs |-> [x \in {} |-> <<>>], queue |-> {}, mb |-> <<>>, mc |-> {}, ms |-> 0,
+           fe |-> [d \in Depths |-> 0]]
 
 (* ------------------------------ initial database ------------------------------ *)
 (* What may be present locally: target nodes together with everything below them (the sync  *)
@@ -150,6 +162,7 @@ InitDB(P, PC, St) ==
 Start ==
   LET s == AddSubTrie(EmptyS, RootLoc, 0) IN
   /\ reqs = s.reqs /\ creqs = s.creqs /\ queue = s.queue /\ mb = s.mb /\ mc = s.mc /\ ms = s.ms
+  /\ fetches = s.fe
   /\ asked = {} /\ res = [op |-> "NewSync"]
 
 Init == \E P \in SUBSET TargetLocs, PC \in SUBSET Codes, St \in SUBSET StaleLocs :
@@ -167,25 +180,38 @@ RECURSIVE LexLess(_, _)
 LexLess(a, b) == IF Len(a) = 0 \/ Len(b) = 0 THEN FALSE
                  ELSE IF a[1] # b[1] THEN a[1] < b[1] ELSE LexLess(Tail(a), Tail(b))
 Take(s, n) == SubSeq(s, 1, IF Len(s) < n THEN Len(s) ELSE n)
-Before(a, b) == \* a must be handed out before b (both node requests)
-  a[1] = "n" /\ b[1] = "n" /\
-  (PathLen(a[2]) > PathLen(b[2]) \/ (PathLen(a[2]) = PathLen(b[2]) /\ LexLess(Take(LocPath[a[2]], 14), Take(LocPath[b[2]], 14))))
+Before(a, b) == \* a must be handed out before b: deeper first, then (node requests) lexicographic
+  \/ Depth(a) > Depth(b)
+  \/ /\ a[1] = "n" /\ b[1] = "n" /\ PathLen(a[2]) = PathLen(b[2])
+     /\ LexLess(Take(LocPath[a[2]], 14), Take(LocPath[b[2]], 14))
 
-(* Sync.Missing(max): hands out the best min(max, |queue|) requests (all of them for max=0) *)
+CountAt(R, d) == Cardinality({it \in R : Depth(it) = d})
+MaxDepthOf(R) == CHOOSE d \in {Depth(it) : it \in R} : \A it \in R : Depth(it) <= d
+
+(* Sync.Missing(max): pops the best requests one by one until max are collected, the queue is *)
+(* empty, or the depth of the best remaining request has more than MaxFetches requests in     *)
+(* flight (throttle).  Every popped request takes a slot of its depth.                         *)
 Missing(max, R) ==
-  /\ R \subseteq queue
-  /\ \A a \in queue \ R, b \in R : ~Before(a, b)
-  /\ IF max = 0 \/ Cardinality(queue) <= max THEN R = queue ELSE Cardinality(R) = max
-  /\ queue' = queue \ R
-  /\ asked' = asked \cup R
-  /\ res' = [op |-> "Missing", max |-> max, items |-> R]
-  /\ UNCHANGED <<dbn, dbc, reqs, creqs, mb, mc, ms>>
+  LET rest == queue \ R
+      fe2  == [d \in Depths |-> fetches[d] + CountAt(R, d)]
+  IN /\ R \subseteq queue
+     /\ \A a \in rest, b \in R : ~Before(a, b)
+     /\ \A d \in Depths : CountAt(R, d) > 0 => fe2[d] <= MaxFetches + 1     \* none was popped while throttled
+     /\ max # 0 => Cardinality(R) <= max
+     /\ \/ rest = {}
+        \/ max # 0 /\ Cardinality(R) = max
+        \/ rest # {} /\ fe2[MaxDepthOf(rest)] > MaxFetches
+     /\ queue' = rest
+     /\ asked' = asked \cup R
+     /\ fetches' = fe2
+     /\ res' = [op |-> "Missing", max |-> max, items |-> R]
+     /\ UNCHANGED <<dbn, dbc, reqs, creqs, mb, mc, ms>>
 
 (* Sync.ProcessNode({path, blob of the target node at path}) *)
 ProcessNode(l) ==
   /\ Target[l] # 0
-  /\ IF l \notin DOMAIN reqs THEN res' = [op |-> "ProcessNode", loc |-> l, err |-> "notrequested"] /\ UNCHANGED <<reqs, creqs, queue, mb, mc, ms>>
-     ELSE IF reqs[l].got THEN res' = [op |-> "ProcessNode", loc |-> l, err |-> "already"] /\ UNCHANGED <<reqs, creqs, queue, mb, mc, ms>>
+  /\ IF l \notin DOMAIN reqs THEN res' = [op |-> "ProcessNode", loc |-> l, err |-> "notrequested"] /\ UNCHANGED <<reqs, creqs, queue, mb, mc, ms, fetches>>
+     ELSE IF reqs[l].got THEN res' = [op |-> "ProcessNode", loc |-> l, err |-> "already"] /\ UNCHANGED <<reqs, creqs, queue, mb, mc, ms, fetches>>
      ELSE /\ Install(Expand([S0 EXCEPT !.reqs[l].got = TRUE], l))
           /\ res' = [op |-> "ProcessNode", loc |-> l, err |-> "ok"]
   /\ UNCHANGED <<dbn, dbc, asked>>
@@ -194,7 +220,7 @@ ProcessNode(l) ==
 ProcessBad(l) ==
   /\ res' = [op |-> "ProcessBad", loc |-> l,
              err |-> IF l \notin DOMAIN reqs THEN "notrequested" ELSE IF reqs[l].got THEN "already" ELSE "invalid"]
-  /\ UNCHANGED <<dbn, dbc, reqs, creqs, queue, asked, mb, mc, ms>>
+  /\ UNCHANGED <<dbn, dbc, reqs, creqs, queue, asked, mb, mc, ms, fetches>>
 
 (* Sync.ProcessCode *)
 RECURSIVE CompleteParents(_, _)
@@ -204,9 +230,10 @@ CompleteParents(s, ps) ==
            s1 == [s EXCEPT !.reqs[p].deps = @ - 1]
        IN CompleteParents(IF s1.reqs[p].deps = 0 THEN CommitNode(s1, p) ELSE s1, Tail(ps))
 ProcessCode(c) ==
-  /\ IF c \notin DOMAIN creqs THEN res' = [op |-> "ProcessCode", code |-> c, err |-> "notrequested"] /\ UNCHANGED <<reqs, creqs, queue, mb, mc, ms>>
+  /\ IF c \notin DOMAIN creqs THEN res' = [op |-> "ProcessCode", code |-> c, err |-> "notrequested"] /\ UNCHANGED <<reqs, creqs, queue, mb, mc, ms, fetches>>
      ELSE LET s1 == [S0 EXCEPT !.mc = @ \cup {c}, !.ms = @ + HashLen + CodeSize[c],
-                               !.creqs = RestrictTo(@, DOMAIN @ \ {c})]
+                               !.creqs = RestrictTo(@, DOMAIN @ \ {c}),
+                               !.fe[CodeDepth] = @ - 1]          \* s.fetches[len(req.path)]--
           IN /\ Install(CompleteParents(s1, creqs[c]))
              /\ res' = [op |-> "ProcessCode", code |-> c, err |-> "ok"]
   /\ UNCHANGED <<dbn, dbc, asked>>
@@ -226,7 +253,7 @@ Commit ==
   /\ dbc' = dbc \cup mc
   /\ mb' = <<>> /\ mc' = {} /\ ms' = 0
   /\ res' = [op |-> "Commit"]
-  /\ UNCHANGED <<reqs, creqs, queue, asked>>
+  /\ UNCHANGED <<reqs, creqs, queue, asked, fetches>>
 
 Pending == Cardinality(DOMAIN reqs) + Cardinality(DOMAIN creqs)
 Done == Pending = 0
@@ -287,6 +314,15 @@ NoStaleOnTarget == (Scheme = "path" /\ Done) => \A l \in TargetLocs : PresentAft
 CodeDeps(l) == Cardinality({p \in UNION {{<<c, i>> : i \in 1..Len(creqs[c])} : c \in DOMAIN creqs} : creqs[p[1]][p[2]] = l})
 DepsExact == \A l \in DOMAIN reqs : reqs[l].got =>
    reqs[l].deps = Cardinality({k \in DOMAIN reqs : reqs[k].parent = l}) + CodeDeps(l)
+
+(* the per-depth throttle: never more than MaxFetches + 1 requests of one depth in flight, and *)
+(* a slot is held exactly as long as its request is handed out and not completed - so every   *)
+(* completed request has released its slot and a finished sync holds none                      *)
+FetchBound == \A d \in Depths : fetches[d] <= MaxFetches + 1
+InFlight(d) == Cardinality({it \in asked \ queue : Depth(it) = d /\
+                   (IF it[1] = "n" THEN it[2] \in DOMAIN reqs ELSE it[2] \in DOMAIN creqs)})
+FetchesExact == \A d \in Depths : fetches[d] = InFlight(d)
+SlotsReleased == Done => \A d \in Depths : fetches[d] = 0
 
 (* reported batch size equals its contents *)
 RECURSIVE OpsCharge(_)
